@@ -29,8 +29,8 @@ def run(tier):
         res.count("panic_sites[%s]" % config, len(sites))
         for k, v in skipped.items():
             res.count("skipped_%s[%s]" % (k, config), v)
-        res.floor("flat-decoder entry points [%s]" % config, len(entries), 28)
-        res.floor("flat-decoder panic sites [%s]" % config, len(sites), 25)
+        res.floor("flat-decoder entry points [%s]" % config, len(entries), 24)
+        res.floor("flat-decoder panic sites [%s]" % config, len(sites), 8)   # 35 today; removing panic sites is an improvement, not a lost anchor
         for need in ("Decoder::<'b>::bool", "Decoder::<'b>::word", "Decoder::<'b>::bits8", "Decoder::<'b>::byte_array",
                      "Decoder::<'b>::ensure_bytes", "Decoder::<'b>::ensure_bits"):
             if not any(p.endswith(need) for p in closure):
